@@ -194,6 +194,10 @@ type history struct {
 	bucket  int
 	maxPos  uint64
 	log     []string
+	logp    *[]string       // where operations are logged: &log, or the log shared by all objects of a c11.mixed case
+	tag     string          // prefix of the log entries (object number in c11.mixed)
+	nops    int             // operations issued on this object
+	alts    []uint64        // further candidates for the sequential position (see refuse); empty = the model is certain
 	visited []uint64        // start offsets of earlier operations
 	rewound map[uint64]bool // bucket indices a backward seek already landed in
 	dead    bool
@@ -201,6 +205,7 @@ type history struct {
 
 func newHistory(c *mon.Case, spec *streamSpec) *history {
 	h := &history{c: c, spec: spec, bucket: spec.effBucket(), rewound: map[uint64]bool{}}
+	h.logp = &h.log
 	var err error
 	if !c.Call("constructor", func() { h.s, err = spec.build() }) {
 		return nil
@@ -214,7 +219,7 @@ func newHistory(c *mon.Case, spec *streamSpec) *history {
 		return nil
 	}
 	c.Detail("object", spec.String())
-	c.Detail("history", lazyLog{&h.log})
+	c.Detail("history", lazyLog{h.logp})
 	return h
 }
 
@@ -303,7 +308,8 @@ func (h *history) do(o op, r *mon.Rand) {
 		}
 	}
 	o.sp = o.sp.apart(o.dp)
-	h.log = append(h.log, o.String())
+	h.nops++
+	*h.logp = append(*h.logp, h.tag+o.String())
 	kind := "Seq"
 	if o.at {
 		kind = "At"
@@ -340,12 +346,16 @@ func (h *history) do(o op, r *mon.Rand) {
 			dst[i] = 0x5c
 		}
 	}
-	key := h.ks.at(start, o.n)
-	want := make([]byte, o.n)
-	for i := range want {
-		want[i] = orig[i] ^ key[i]
+	xorKey := func(at uint64) []byte {
+		key := h.ks.at(at, o.n)
+		w := make([]byte, o.n)
+		for i := range w {
+			w[i] = orig[i] ^ key[i]
+		}
+		return w
 	}
-	what := fmt.Sprintf("op %d %v (model position before: %d)", len(h.log), o, h.pos)
+	want := xorKey(start)
+	what := fmt.Sprintf("%sop %d %v (model position before: %d)", h.tag, h.nops, o, h.pos)
 	ok := c.Call(what, func() {
 		if o.at {
 			h.s.XORKeyStreamAt(dst, src, o.off)
@@ -358,6 +368,35 @@ func (h *history) do(o op, r *mon.Rand) {
 	if !ok {
 		h.fail()
 		return
+	}
+	if o.at {
+		h.alts = nil // a positioned call defines the position whatever it was
+	} else if len(h.alts) > 0 {
+		// the sequential position is one of several candidates (a refused positioned call came before): the output
+		// decides which; it must be the keystream of one of them
+		var keep []uint64
+		primary := bytes.Equal(dst[:o.n], want)
+		for _, a := range h.alts {
+			if bytes.Equal(dst[:o.n], xorKey(a)) {
+				keep = append(keep, a)
+			}
+		}
+		switch {
+		case primary:
+			if len(keep) == 0 {
+				c.Event("refused_at_position_kept", 1)
+			}
+		case len(keep) > 0:
+			c.Event("refused_at_position_moved", 1)
+			start, keep = keep[0], keep[1:]
+			want = xorKey(start)
+		default:
+			c.Detail("position_candidates", fmt.Sprint(append([]uint64{h.pos}, h.alts...)))
+		}
+		for i := range keep {
+			keep[i] += uint64(o.n)
+		}
+		h.alts = keep
 	}
 	if !bytes.Equal(dst[:o.n], want) {
 		i := 0
@@ -393,6 +432,99 @@ func (h *history) do(o op, r *mon.Rand) {
 		h.maxPos = h.pos
 	}
 }
+
+// refuse issues a call the object must refuse: len(dst) < len(src) ("If len(dst) < len(src), XORKeyStream should
+// panic", crypto/cipher.Stream; the library panics with "zuc: output smaller than input"). The panic is the documented
+// refusal and is not judged (mon.Try); a call that returns normally has produced output for which there was no room:
+// violation. A refused call is no transition of the object's state machine: XORKeyStream checks before it touches the
+// object, so the sequential position and every later keystream byte must be what they were. XORKeyStreamAt, however,
+// seeks to the offset first and refuses afterwards (internal/zuc/eea.go XORKeyStreamAt); the property says nothing on
+// the position after a refused positioned call, so the model keeps both candidates {old position, off} and lets the
+// next sequential call decide (event refused_at_position_moved / _kept); the keystream content is checked either way.
+// dst and src sit in different guard regions and never overlap.
+func (h *history) refuse(at bool, off uint64, cls string, r *mon.Rand, dp, sp place) {
+	if h.dead {
+		return
+	}
+	c := h.c
+	gd, gs := eeaGuards()
+	n := 1 + r.Intn(300)
+	var d int
+	how := ""
+	switch r.Intn(3) {
+	case 0:
+		d, how = n-1, "one-byte-less"
+	case 1:
+		d, how = 0, "empty"
+	default:
+		d, how = r.Intn(n), "shorter"
+	}
+	sp = sp.apart(dp)
+	src := sp.buf(gs, n)
+	r.Fill(src)
+	// in half of the calls dst is short in length only: its capacity would hold the output (a check that looks at the
+	// capacity, or a missing check followed by a reslice, then goes through instead of refusing)
+	spare := 0
+	if r.Bool() {
+		spare = n - d + r.Intn(8)
+		how += "+cap"
+	}
+	dst := dp.buf(gd, d+spare)
+	for i := range dst {
+		dst[i] = 0x5c
+	}
+	dst = dst[:d]
+	h.nops++
+	var what string
+	if at {
+		what = fmt.Sprintf("%sop %d refused At(off=%d,len(src)=%d,len(dst)=%d [%s] dst@%v src@%v %s) (model position before: %d)", h.tag, h.nops, off, n, d, how, dp, sp, cls, h.pos)
+	} else {
+		what = fmt.Sprintf("%sop %d refused Seq(len(src)=%d,len(dst)=%d [%s] dst@%v src@%v) (model position before: %d)", h.tag, h.nops, n, d, how, dp, sp, h.pos)
+	}
+	*h.logp = append(*h.logp, what)
+	pi := try(func() {
+		if at {
+			h.s.XORKeyStreamAt(dst, src, off)
+		} else {
+			h.s.XORKeyStream(dst, src)
+		}
+	})
+	c.Event("calls", 1)
+	c.Event("eea_ops", 1)
+	kind := "Seq"
+	if at {
+		kind = "At"
+	}
+	c.Class("eea.refused/%s/b%d/%s/%s/%s/%s", h.spec.family, h.bucket, kind, posClass(h.pos), how, lenClass(n))
+	if pi == nil {
+		c.Fail("accept", "%s: the call was not refused although dst is shorter than src", what)
+		h.fail()
+		return
+	}
+	if isFault(pi) {
+		c.Detail("stack", pi.Stack)
+		c.Fail("oob", "%s: memory fault instead of a refusal: %v", what, pi.Value)
+		h.fail()
+		return
+	}
+	c.Event("eea_refused", 1)
+	if !c.CheckGuards(what, gd, gs) {
+		h.fail()
+		return
+	}
+	if at && atRefusedMayMove {
+		known := off == h.pos
+		for _, a := range h.alts {
+			known = known || a == off
+		}
+		if !known {
+			h.alts = append(h.alts, off)
+		}
+	}
+}
+
+// atRefusedMayMove: the sequential position after a refused XORKeyStreamAt(dst, src, off) is either the old one or off.
+const atRefusedMayMove = true
 
 func clip(b []byte) []byte {
 	if len(b) > 48 {
@@ -491,13 +623,46 @@ func raceScale(x *mon.Ctx, n int) int {
 	return n
 }
 
+// randomOp draws one valid operation (length, placement, aliasing, sequential or positioned) relative to the model state.
+func (h *history) randomOp(r *mon.Rand, maxLen int) op {
+	o := op{n: pickLen(r), dp: place(r.Intn(nPlaces)), sp: place(r.Intn(nPlaces))}
+	if o.n > maxLen {
+		o.n %= maxLen + 1
+	}
+	switch r.Intn(8) {
+	case 0, 1:
+		o.alias = 1
+	case 2:
+		o.alias = 2
+	}
+	if r.Intn(5) < 3 {
+		o.at = true
+		o.off, o.cls = h.pickOffset(r)
+		if o.off > 4096 && o.n > 2048 {
+			o.n %= 512
+		}
+	}
+	return o
+}
+
+// randomRefuse draws one call that must be refused (see refuse).
+func (h *history) randomRefuse(r *mon.Rand) {
+	at := r.Bool()
+	var off uint64
+	cls := ""
+	if at {
+		off, cls = h.pickOffset(r)
+	}
+	h.refuse(at, off, cls, r, place(r.Intn(nPlaces)), place(r.Intn(nPlaces)))
+}
+
 func eeaWalk(x *mon.Ctx) {
 	if err := refzuc.SelfTest(); err != nil {
 		x.HarnessError("%v", err)
 	}
 	walks := raceScale(x, x.Scale(6000, 150000))
 	for i := 0; i < walks; i++ {
-		c := x.Begin("walk %d: random history on one cipher object (constructor, key, operations drawn from the case PRNG)", i)
+		c := x.Begin("walk %d: random history on one cipher object (constructor, key, operations and refused calls drawn from the case PRNG)", i)
 		if c == nil {
 			continue
 		}
@@ -510,21 +675,11 @@ func eeaWalk(x *mon.Ctx) {
 		}
 		nops := 1 + r.Intn(40)
 		for k := 0; k < nops && !h.dead; k++ {
-			o := op{n: pickLen(r), dp: place(r.Intn(nPlaces)), sp: place(r.Intn(nPlaces))}
-			switch r.Intn(8) {
-			case 0, 1:
-				o.alias = 1
-			case 2:
-				o.alias = 2
+			if r.Intn(12) == 0 {
+				h.randomRefuse(r)
+				continue
 			}
-			if r.Intn(5) < 3 {
-				o.at = true
-				o.off, o.cls = h.pickOffset(r)
-				if o.off > 4096 && o.n > 2048 {
-					o.n %= 512
-				}
-			}
-			h.do(o, r)
+			h.do(h.randomOp(r, maxOpLen), r)
 		}
 		c.Event("eea_walks", 1)
 		c.End()
@@ -647,6 +802,14 @@ func eeaGrid(x *mon.Ctx) {
 				h.do(op{at: true, off: 0, n: 0, dp: pl, sp: pl.next(1), cls: "rewind"}, r)
 				h.do(op{n: a, dp: pl.next(1), sp: pl.next(2), alias: (a + ti) % 3 % 2}, r)
 				h.do(op{at: true, off: t.off, n: lens[(a+ti)%len(lens)], dp: pl.next(2), sp: pl.next(3), cls: t.cls}, r)
+				// a refused call (dst shorter than src) from the position just reached: sequential for one target in
+				// eight, positioned (to the next target's offset) for another
+				switch (a + ti) % 8 {
+				case 1:
+					h.refuse(false, 0, "", r, pl.next(5), pl.next(6))
+				case 5:
+					h.refuse(true, targets[(ti+1)%len(targets)].off, "next-target", r, pl.next(5), pl.next(6))
+				}
 				h.do(op{n: 3 + ti%3, dp: pl.next(3), sp: pl.next(4)}, r)
 			}
 			c.End()
